@@ -27,6 +27,21 @@ def gen(rng, tier):
         sub = m.gen(random.Random(rng.random()), "quick")
         for sh in sub[:take]:
             shards.append([dict(c, _family=m.FAMILY, _src=pid) for c in sh])
+    # legacy code in a broken state: trees in which the import of a name that two packages declare is missing. What the tool
+    # guesses for such a name is nobody's business here - but it must be the same guess on every run
+    from . import p_java
+    m = REGISTRY["C01"]()
+    for _ in range(take):
+        sh = [dict(p_java.project_case(rng, missing_import=0.6), _family=m.FAMILY, _src="C01") for _ in range(6)]
+        for k in range(6):
+            # the plain case: one simple name declared in two to four packages, used without import from a fifth
+            name = rng.choice(["Helper", "Order", "Util"])
+            pkgs = rng.sample(["com.a", "com.b", "org.c", "net.d"], rng.choice([2, 3, 4]))
+            files = {"%s/%s.java" % (pk.replace(".", "/"), name): "package %s;\n\npublic class %s {\n    public void run() { }\n}\n" % (pk, name) for pk in pkgs}
+            files["app/Main%d.java" % k] = ("package app;\n\npublic class Main%d {\n    private %s h;\n    public void start(%s p) {\n        h.run();\n        p.run();\n"
+                                            "        %s q = new %s();\n        q.run();\n    }\n}\n") % (k, name, name, name, name)
+            sh.append({"op": "full", "files": files, "units": [], "truth": [], "identKeys": [], "_family": m.FAMILY, "_src": "C01"})
+        shards.append(sh)
     return shards
 
 
@@ -113,7 +128,7 @@ def nontrivial(case, mo):
 
 
 RULE = ("the quick generators of C01 C03 C04 C10 C11 C12 C13 C14 C15 C16 C17 C18 C19 (2 shards each, 8 in the thorough tier): every history is executed three times by "
-        "the real code in three separate processes and the canonical outputs (collections sorted by the harness; promised orders kept: sorted listings, --sort "
+        "the real code in three separate processes (plus Java trees with a missing import of an ambiguous name) and the canonical outputs (collections sorted by the harness; promised orders kept: sorted listings, --sort "
         "groups, top authors, team summary, code age) are compared; the Go runtime draws a fresh order for every `range` over a map in each run")
 ASSUMPTIONS = ["the harness canonicalisation (sort of unordered collections) is the 'identical as a collection' of the statement",
                "two runs sample two iteration orders per map loop; the universal claim is the Lean part (every oracle)"]
